@@ -154,6 +154,9 @@ theorem funcs_all : Generated.funcs.map (fun f => (f.name, f.table)) = Generated
 
 theorem funcs_cls : ∀ f ∈ Generated.funcs, f.cls ≠ .other := by decide +kernel
 
+/-- the labellers tabulated from the live module are exactly the 33 the property quantifies over -/
+theorem labellers_pinned : Generated.funcs.map (fun f => f.name) = expectedLabellerNames := by decide +kernel
+
 /-- the resolution table as a whole is the model's -/
 theorem resolution_ok : Generated.resolution = Generated.funcs.map expectedEntry := by
   simp only [Generated.resolution, Generated.funcs, List.map_cons, List.map_nil, res_car_streetscene_20_to_car_streetscene_view_0_8, res_car_streetscene_20_to_car_streetscene_view_1_14, res_car_streetscene_20_to_car_streetscene_view_2_10, res_car_streetscene_20_to_car_streetscene_view_3_14, res_car_streetscene_20_to_car_streetscene_view_4_14, res_car_streetscene_20_to_car_streetscene_view_5_10, res_car_streetscene_20_to_car_streetscene_view_6_14, res_car_streetscene_20_to_car_streetscene_view_7_8, res_eye_ibug_close_17_to_eye_ibug_close_17, res_eye_ibug_close_17_to_eye_ibug_close_17_trimesh, res_eye_ibug_open_38_to_eye_ibug_open_38, res_eye_ibug_open_38_to_eye_ibug_open_38_trimesh, res_face_bu3dfe_83_to_face_bu3dfe_83, res_face_ibug_49_to_face_ibug_49, res_face_ibug_68_mirrored_to_face_ibug_68, res_face_ibug_68_to_face_ibug_49, res_face_ibug_68_to_face_ibug_49_trimesh, res_face_ibug_68_to_face_ibug_51, res_face_ibug_68_to_face_ibug_51_trimesh, res_face_ibug_68_to_face_ibug_65, res_face_ibug_68_to_face_ibug_66, res_face_ibug_68_to_face_ibug_66_trimesh, res_face_ibug_68_to_face_ibug_68, res_face_ibug_68_to_face_ibug_68_trimesh, res_face_imm_58_to_face_imm_58, res_face_lfpw_29_to_face_lfpw_29, res_hand_ibug_39_to_hand_ibug_39, res_pose_flic_11_to_pose_flic_11, res_pose_human36M_32_to_pose_human36M_17, res_pose_human36M_32_to_pose_human36M_32, res_pose_lsp_14_to_pose_lsp_14, res_pose_stickmen_12_to_pose_stickmen_12, res_tongue_ibug_19_to_tongue_ibug_19]
